@@ -7,12 +7,6 @@ Local Open Scope string_scope.
 Local Open Scope N_scope.
 
 (* ---------- the two sections preserve the invariant ---------- *)
-Lemma CInv_adv s s' :
-  (forall ch, lts (clock_of s' ch) = lts (clock_of s ch) /\ cts (clock_of s ch) <= cts (clock_of s' ch)) -> out s' = out s -> CInv s -> CInv s'.
-Proof.
-  intros Hc Ho I ch. destruct (I ch) as [I1 [I2 I3]]. destruct (Hc ch) as [C1 C2]. unfold chan_inv. rewrite Ho, C1. split; [lia|]. split; assumption.
-Qed.
-
 Lemma CInv_emit1 s ch b e msgs :
   CInv s -> b <= cts (clock_of s ch) -> cts (clock_of s ch) + N.of_nat (List.length msgs) + 1 < maxu -> CInv (fst (emit1 s ch b e msgs)).
 Proof.
@@ -81,30 +75,6 @@ Proof.
     rewrite Hon. exact (I ch').
 Qed.
 
-(* ---------- how the clocks move ---------- *)
-(* [rel]: the output and the last-tick times stay, the channel times may rise; [adv]: the channel times do not fall *)
-Definition rel (s s' : st) : Prop :=
-  (forall ch, lts (clock_of s' ch) = lts (clock_of s ch) /\ cts (clock_of s ch) <= cts (clock_of s' ch)) /\ out s' = out s.
-Definition adv (s s' : st) : Prop := forall ch, cts (clock_of s ch) <= cts (clock_of s' ch).
-
-Lemma rel_refl s : rel s s. Proof. split; [intros ch; split; [reflexivity|lia]|reflexivity]. Qed.
-Lemma rel_trans a b c : rel a b -> rel b c -> rel a c.
-Proof. intros [H1 O1] [H2 O2]. split; [|congruence]. intros ch. destruct (H1 ch), (H2 ch). split; [congruence|lia]. Qed.
-Lemma rel_ext s s' : clocks s' = clocks s -> out s' = out s -> rel s s'.
-Proof. intros Ec Eo. split; [|exact Eo]. intros ch. rewrite (clock_of_ext s s' ch Ec). split; [reflexivity|lia]. Qed.
-Lemma rel_adv s s' : rel s s' -> adv s s'. Proof. intros [H _] ch. apply H. Qed.
-Lemma adv_refl s : adv s s. Proof. intros ch. lia. Qed.
-Lemma adv_trans a b c : adv a b -> adv b c -> adv a c.
-Proof. intros H1 H2 ch. specialize (H1 ch). specialize (H2 ch). lia. Qed.
-Lemma CInv_rel s s' : rel s s' -> CInv s -> CInv s'.
-Proof. intros [H O]. apply CInv_adv; assumption. Qed.
-
-Lemma rel_collect s ch t : t <> maxu -> rel s (set_clock s ch (collect (clock_of s ch) t)).
-Proof.
-  intros Ht. split; [|reflexivity]. intros ch'. destruct (String.eqb_spec ch ch') as [<-|N].
-  - rewrite clock_of_set. destruct (collect_spec (clock_of s ch) t Ht) as [C1 [C2 _]]. rewrite C1, C2. split; [reflexivity|lia].
-  - rewrite (clock_of_set_other s ch _ ch' N). split; [reflexivity|lia].
-Qed.
 Lemma rel_fire s : rel s (fire s).
 Proof.
   unfold fire. destruct (fire_cbars_frame s) as [A B]. destruct (fire_pbars_frame (fire_cbars s)) as [C D]. apply rel_ext; congruence.
@@ -204,10 +174,7 @@ Proof.
   - split; [apply step_CInv; [exact I|exact Logic.I]|]. unfold step. eapply adv_trans; [|apply rel_adv, rel_fire].
     destruct (zmem _ _); [apply adv_refl|]. destruct (zlookup _ _); [apply adv_refl|]. destruct (pairing c) as [shards|]; [|apply adv_refl].
     match goal with |- adv s (settle (fold_left ?f shards ?s1)) =>
-      assert (E : adv s s1) by (apply rel_adv, rel_ext; reflexivity);
-      assert (K : same_clk s1 (settle (fold_left f shards s1))) by (eapply same_clk_trans; [apply (fold_same_clk f); intros s0 sh; apply add_shard_same_clk|apply settle_same_clk]);
-      eapply adv_trans; [exact E|] end.
-    intros ch. destruct K as [A _]. destruct (A ch) as [-> _]. lia.
+      assert (E : adv s s1) by (apply rel_adv, rel_ext; reflexivity); eapply adv_trans; [exact E|apply rel_adv, start_coll_rel] end.
   - split; [apply step_CInv; [exact I|exact Logic.I]|]. unfold step. eapply adv_trans; [|apply rel_adv, rel_fire].
     apply rel_adv, rel_ext; repeat dm; reflexivity.
   - cbn [label_safe2] in S. rewrite step_feed_eq. pose proof (feed_content_spec retries s c cname spch p answers S) as F.
